@@ -2,8 +2,8 @@
 from reg._common import COMMON_ASSUME
 
 ENTRY = {
-    'lean_files': ['Props/C18.lean', 'Props/C18Merge.lean', 'Props/C02Pipeline.lean'],
-    'lemma_files': ['Model/GeometricInst.lean', 'Model/Helpers.lean', 'Model/Newton.lean', 'Model/Locate.lean', 'Lemmas/Pipeline.lean', 'Lemmas/Lipschitz.lean', 'Lemmas/Subdivide.lean', 'Model/Basic.lean', 'Model/Curve.lean',
+    'lean_files': ['Props/C18.lean', 'Props/C18Merge.lean', 'Props/C18Cover.lean', 'Props/C02Pipeline.lean'],
+    'lemma_files': ['Lemmas/SelfCover.lean', 'Lemmas/Coverage.lean', 'Lemmas/PipelineInst.lean', 'Model/GeometricInst.lean', 'Model/Helpers.lean', 'Model/Newton.lean', 'Model/Locate.lean', 'Lemmas/Pipeline.lean', 'Lemmas/Lipschitz.lean', 'Lemmas/Subdivide.lean', 'Model/Basic.lean', 'Model/Curve.lean',
                     'Model/Geometric.lean', 'Model/Self.lean', 'Model/Solve2x2.lean'],
     'script': 'props/c18.py',
     'rule': 'curves of degree 2..8: the cubic loop with closed-form crossing, planted transversal self-crossings (nets built in exact '
@@ -11,10 +11,18 @@ ENTRY = {
             '(must return empty), random nets with large turning angle (every returned pair must be genuine: exact residual, 0 <= s1 < s2 <= 1 '
             'with a gap), the non-terminating net of finding F-G; the turning-angle decision against the algebraic model; distinct by hash of '
             'exact inputs',
-    'partial': ['completeness ("every well-conditioned self-crossing is returned exactly once") is checked on planted crossings only; proved: '
-                'every returned pair has 0 <= s1 < s2 <= 1 and is never on the diagonal (pairs_structure, split_removed), half-plane hodograph => '
-                'injective, the algebraic turning-angle test characterisation (anglesBelowPi_spec), non-termination of the F-G net for every '
-                'fuel; the equivalence of the algebraic angle test with the floating atan2 sum is validated by correspondence only'],
+    'partial': ['proved (Props/C18, C18Merge, C18Cover; any ordered field, any fuel): every returned pair has 0 <= s1 < s2 <= 1 and is never the split '
+                'point; no pair is returned twice (self_intersections_nodup, after the repair 42a8a75); SOUNDNESS OF THE PRUNING TEST: the algebraic form of '
+                'discrete_turning_angle < pi implies that all non-zero edges of the control polygon lie in an open half-plane and hence that a non-constant '
+                'curve is injective (turning_below_pi_injective; the constant curve is the decided counter-example), so the pruned branch returns the '
+                'complete, empty answer; coverage structure: every self-crossing is a self-crossing of a half or a true intersection of (left, right), '
+                'seen twice exactly when a parameter equals 1/2; conditional completeness and soundness of the whole recursion '
+                '(self_intersections_complete_cond / _sound_cond): if all_intersections is complete / sound on the pairs it is called on (the C03 property, '
+                'taken as hypothesis) then every self-crossing is returned up to 2 eps and every returned pair is genuine',
+                'not proved: completeness of all_intersections itself (C03, partial), the equivalence of the algebraic angle test with the floating atan2 sum '
+                '(validated by correspondence), termination: the recursion has no bound (finding F-G, proved non-terminating on the model for every fuel); '
+                'on the real code completeness is checked on planted crossings, certified crossings of random integer nets, nested planted crossings and the '
+                'lens corpus'],
     'trusted_base': ['modelled not verified: self_intersections (geometric_intersection.py), discrete_turning_angle (curve_helpers.py), '
                      'Curve.self_intersections glue; libm atan2'],
     'assumptions': COMMON_ASSUME,
